@@ -43,9 +43,9 @@ RULE = (
 )
 BOUNDS = {
     "quick": {"max_crashes_per_history": "unbounded (fixpoint)", "state_cap_per_config": 2500, "unit_of_execution": "one invocation of the script's main() (its whole driver loop)",
-              "configs": "retrospective (batch,plates,chains,chunks) in {(1,3,1,1),(2,4,1,1),(3,5,1,1),(2,3,2,2)}; prospective (batch,iterations) in {(1,2),(2,2),(3,2)} with (1,1) and (2,2,(2,2))"},
+              "configs": "retrospective (batch,plates,chains,chunks) in {(1,3,1,1),(2,4,1,1),(3,5,1,1),(2,3,2,2)}; prospective (batch,iterations) in {(1,2),(2,2),(3,2)} with (1,1) and (2,2,(2,2)); plus two crash-bounded long runs (batch 1 / 13 plates, batch 2 / 23 plates: every interruption point of every launch, <= 1 interruption per history)"},
     "thorough": {"max_crashes_per_history": "unbounded (fixpoint)", "state_cap_per_config": 40000,
-                 "configs": "batch 1..4 x plates 2..5 x {(1,1),(2,2)} both modes; plus batch 11 / 13 plates (two-digit plate dirs)"},
+                 "configs": "batch 1..4 x plates 2..5 x {(1,1),(2,2)} both modes; plus batch 11 / 13 plates (two-digit plate dirs); plus the two crash-bounded long runs of the quick tier"},
 }
 ASSUMPTIONS = [
     "Nextflow publishes each output file atomically, in some order compatible with the task DAG of the .nf files (no torn files, no publication overtaking an upstream task)",
@@ -53,6 +53,10 @@ ASSUMPTIONS = [
     "the user reacts to 'Consider deleting this directory ...: <path>' by deleting exactly that directory, atomically",
     "file contents are abstract but functional (screens carry their observed plate set; thetas/distances/scores carry digests of their inputs)",
 ]
+
+
+class Runaway(BaseException):
+    """Horizon of one invocation: far more pipeline launches / filesystem mutations than any run of this size needs."""
 
 
 class Crash(BaseException):
@@ -67,15 +71,19 @@ _SCRIPT = {}
 
 
 def script():
-    if "m" not in _SCRIPT:
-        path = os.path.join(env.REPO, "nextflow", "scripts", "batchie.py")
-        spec = importlib.util.spec_from_file_location("batchie_orchestration_script", path)
-        mod = importlib.util.module_from_spec(spec)
-        spec.loader.exec_module(mod)
-        mod.logger.handlers = []
-        mod.logger.disabled = True
-        _SCRIPT["m"] = mod
-    return _SCRIPT["m"]
+    """A FRESH module object per invocation: every (re-)run of the script is a new process, nothing kept in module-level
+    variables survives an interruption.  (The source is compiled once.)"""
+    path = os.path.join(env.REPO, "nextflow", "scripts", "batchie.py")
+    if "code" not in _SCRIPT:
+        with open(path) as f:
+            _SCRIPT["code"] = compile(f.read(), path, "exec")
+    import types
+    mod = types.ModuleType("batchie_orchestration_script")
+    mod.__file__ = path
+    exec(_SCRIPT["code"], mod.__dict__)
+    mod.logger.handlers = []
+    mod.logger.disabled = True
+    return mod
 
 
 # ------------------------------------------------------------------ tree <-> disk
@@ -372,11 +380,15 @@ class Sandbox:
                         if crash and crash[0] == "script" and counter["n"] == crash[1]:
                             raise Crash(f"interrupted before {name} #{counter['n']}")
                         counter["n"] += 1
+                        if counter["n"] > 400 * self.cfg["plates"] + 2000:
+                            raise Runaway(f"{counter['n']} filesystem mutations in one invocation")
                 return fn(path, *a, **k)
 
             return w
 
         def check_call(cmd, *a, **k):
+            if len(fake.launches) > 2 * self.cfg["plates"] + 4:
+                raise Runaway(f"{len(fake.launches)} pipeline launches in one invocation for {self.cfg['plates']} plates")
             counter["in_pipeline"] = True
             at_launch.append(counter["n"])
             try:
@@ -396,6 +408,9 @@ class Sandbox:
             res["outcome"] = "done"
         except Crash:
             res["outcome"] = "crash"
+        except Runaway as exc:
+            res["outcome"] = "runaway"
+            res["error"] = str(exc)
         except RuntimeError as exc:
             m = ADVICE_RE.search(str(exc))
             if m:
@@ -605,7 +620,7 @@ def complete_steps(tree, ref):
 
 
 # ------------------------------------------------------------------ exploration of one configuration
-def crash_plans(base):
+def crash_plans(base, all_launches=False):
     """Interruption points of one execution that lead to NEW trees: every filesystem mutation of the script up to
     and including the first one after its first pipeline launch returned, and every partially published state of
     that first launch.  Interruptions later in the same invocation are reached from the tree the script is then
@@ -613,15 +628,17 @@ def crash_plans(base):
     n = base["n_script_mutations"]
     at = base["mutations_at_launch"]
     limit = n if len(at) < 2 else at[1]
-    if len(at) >= 1 and base["outcome"] != "done":
+    if (len(at) >= 1 and base["outcome"] != "done") or all_launches:
         limit = n
     plans = [("script", k) for k in range(min(n, limit + 1))]
-    if base["nodes_per_launch"]:
-        for I in ideals(base["nodes_per_launch"][0]):
-            plans.append(("pipeline", 0, I, False))
-            nodes = base["nodes_per_launch"][0]
+    # all_launches (crash-bounded deep configurations): the interruption points of EVERY launch of the invocation,
+    # because with a bound on the number of crashes the boundary crash point may not be used as a stepping stone
+    for li in range(len(base["nodes_per_launch"]) if all_launches else min(1, len(base["nodes_per_launch"]))):
+        nodes = base["nodes_per_launch"][li]
+        for I in ideals(nodes):
+            plans.append(("pipeline", li, I, False))
             if any(nd[0] not in I and set(nd[2]) <= I for nd in nodes):
-                plans.append(("pipeline", 0, I, True))
+                plans.append(("pipeline", li, I, True))
     return plans
 
 
@@ -676,7 +693,10 @@ def explore_config(cfg, col, tier, dag_source):
             rnd = prepare_input(sb, cfg, tree)
             protected = complete_steps(tree, ref)
             base = sb.execute(tree, None)
-            for pl in [None] + crash_plans(base):
+            max_crashes = cfg.get("max_crashes")
+            crashes_so_far = sum(1 for lab in hist if lab.startswith("crash@"))
+            plans = crash_plans(base, all_launches=max_crashes is not None) if max_crashes is None or crashes_so_far < max_crashes else []
+            for pl in [None] + plans:
                 r = base if pl is None else sb.execute(tree, pl)
                 col.evaluations += 1
                 col.transitions += 1
@@ -686,6 +706,9 @@ def explore_config(cfg, col, tier, dag_source):
                 bad = False
                 if r["outcome"] == "error":
                     violate("error", f"re-running the script fails with {r['error']} instead of progressing or naming a directory", h2)
+                    bad = True
+                if r["outcome"] == "runaway":
+                    violate("never-finishes", f"the script does not come to an end ({r['error']}): steps are executed again and again", h2)
                     bad = True
                 b2, ever = judge_launches(sb, cfg, r, ref, violate, h2, protected)
                 bad = bad or b2
@@ -757,6 +780,12 @@ def check_final(tree, ref, violate, hist):
 
 
 # ------------------------------------------------------------------ plan / run
+# long runs (two-digit iteration directories), crash-bounded: every interruption point of every launch of the whole run,
+# at most max_crashes interruptions per history, then re-runs (and advised deletions) to quiescence
+DEEP = [{"mode": "retrospective", "batch": 1, "plates": 13, "chains": 1, "chunks": 1, "max_crashes": 1},
+        {"mode": "retrospective", "batch": 2, "plates": 23, "chains": 1, "chunks": 1, "max_crashes": 1}]
+
+
 def configs(tier):
     out = []
     if tier == "quick":
@@ -764,6 +793,7 @@ def configs(tier):
             out.append({"mode": "retrospective", "batch": b, "plates": p, "chains": c, "chunks": k})
         for (b, it, c, k) in [(1, 2, 1, 1), (2, 2, 1, 1), (3, 2, 1, 1), (2, 2, 2, 2)]:
             out.append({"mode": "prospective", "batch": b, "plates": 2 + b * it, "chains": c, "chunks": k, "iterations": it})
+        out += DEEP
     else:
         for b in (1, 2, 3, 4):
             for p in (2, 3, 4, 5):
@@ -774,6 +804,7 @@ def configs(tier):
             for (c, k) in ((1, 1), (2, 2)):
                 out.append({"mode": "prospective", "batch": b, "plates": 2 + 2 * b, "chains": c, "chunks": k, "iterations": 2})
         out.append({"mode": "retrospective", "batch": 11, "plates": 13, "chains": 1, "chunks": 1})
+        out += DEEP
     return out
 
 
@@ -824,6 +855,8 @@ def replay(case, col):
                   f"{[(step_of_outdir(sb.root, L['outdir']), L['mode'], L['excludes']) for L in r['launches']]}")
             if r["outcome"] == "error":
                 violate("error", r["error"], [])
+            if r["outcome"] == "runaway":
+                violate("never-finishes", r["error"], [])
             _, ever = judge_launches(sb, cfg, r, ref, violate, [], protected)
             new_tree = r["tree"]
             lost = ever - complete_steps(new_tree if r["outcome"] != "advice" else {k: v for k, v in new_tree.items() if not (k == r["advice"] or k.startswith(r["advice"] + "/"))}, ref)
